@@ -80,6 +80,8 @@ def ops_of(labels):
             out.append(('priv', int(args[0])))
         elif name == 'TimerStep':
             out.append(('tick',))
+        elif name == 'PollStep':
+            out.append(('wait', 1.05))           # the idle job's 1 s wait for a request times out
         elif name == 'TailEnd':
             out.append(('tailend', int(args[0])))
         elif name in ('Cycle', 'FirstStep', 'ETracked'):
@@ -194,6 +196,7 @@ class World:
         # work handed to the executor (stat, open, read of shared files) takes no time at all in the virtual loop;
         # in some scenarios it takes longer than one sleep of the management job
         self.exec_delay = rng.choice([0.0, 0.0, 0.0, 0.06])
+        self.friends_by_assignment = rng.random() < 0.5
         self.refuse = {}              # o -> delay: connections to this peer fail (after the delay)
         self.slow_dial = {}           # o -> delay: the next connection to this peer takes that long
 
@@ -554,12 +557,16 @@ class World:
         self.settings.transfers.limits.upload_slots = n
         self.rec.maybe_attr()
 
-    def op_friend(self, o):
+    def op_friend(self, o, how=None):
+        """The application changes its friend list: in place, or by assigning a new set to the setting."""
         name = self.names[o]
-        if name in self.settings.users.friends:
-            self.settings.users.friends.discard(name)
+        friends = self.settings.users.friends
+        if how == 'assign' or (how is None and self.friends_by_assignment):
+            self.settings.users.friends = (set(friends) - {name}) if name in friends else (set(friends) | {name})
+        elif name in friends:
+            friends.discard(name)
         else:
-            self.settings.users.friends.add(name)
+            friends.add(name)
         self.rec.maybe_attr()
 
     def _server_send(self, *msgs):
@@ -723,7 +730,7 @@ class Scenario:
             elif k == 'status':
                 w.op_status(op[1], op[2])
             elif k == 'friend':
-                w.op_friend(op[1])
+                w.op_friend(op[1], op[2] if len(op) > 2 else None)
             elif k == 'priv':
                 w.op_priv(op[1])
         await self._settle(w)
@@ -832,6 +839,25 @@ def directed_scenarios(rng, thorough):
                       (('neg', 1), ('run',), ('wait', 0.4), ('failslow', 1, delay), ('wait', gap), ('req', 1), ('idle',)) + \
                       (('neg', 1), ('run',), ('complete', 1)) + STEP
                 out.append(((n, _plain(n)), ops, 'd8-asked-again-while-old-task-busy'))
+    # D10 limit changes and transfer events interleaved within one settings-poll period: the limit is lowered, an
+    # active upload ends (its cycle runs at the lower limit), the limit goes back up; nothing else happens afterwards
+    for lim in (2, 3):
+        for how in ('fail', 'abort', 'back'):
+            for low in range(1, lim):
+                ups = [2 * o - 1 for o in range(1, lim + 2)]
+                ops = tuple(('req', u) for u in ups) + STEP + (('slots', low), (how, 1)) + STEP + (('slots', lim), ('idle',)) + \
+                      tuple(x for u in ups for x in (('neg', u), ('run',), ('complete', u))) + STEP
+                out.append(((lim, _plain(lim + 1)), ops, 'd10-limit-lowered-event-raised'))
+    # D11 the friend list changes (in place or by assignment of a new set, see World.op_friend) while two users wait
+    # for the one slot user 3 holds
+    for first, pre, how in itertools.product((1, 2), (False, True), ('assign', 'inplace')):
+        if True:
+            users = ((1, 'online', pre, False), (2, 'online', pre, False), (3, 'online', False, False))
+            other = 3 - first
+            ops = (('req', 5),) + STEP + (('req', 1), ('run',), ('req', 3)) + STEP
+            ops += ((('friend', other, how),) if pre else (('friend', first, how),)) + (('wait', 0.2), ('fail', 5)) + STEP + \
+                   (('neg', 1), ('neg', 3), ('run',), ('complete', 1), ('complete', 3)) + STEP
+            out.append(((1, users), ops, 'd11-friend-list-changed'))
     # D9 what the client knows about a user must survive as long as the user has an unfinished upload: user 1 has a
     # queued upload, then user 2 queues one, then a later upload of user 1 is finished (aborted / failed); user 3
     # holds the only slot meanwhile.  Afterwards the slot is handed on twice.
@@ -882,7 +908,7 @@ def _models(chk: Check, thorough: bool):
     st = chk.cov['binding_selftest']
     r = tlc.model_check(SPEC, 'MC_quick.cfg', expect_actions=ALL_ACTIONS + ['TailEnd', 'ETracked'], timeout=900)
     chk.add_model('UploadSlots 2 users/3 uploads, 3 life-cycle events (exhaustive)', r)
-    r = tlc.model_check(SPEC, 'MC_quick2.cfg', expect_actions=ALL_ACTIONS + ['TailEnd', 'ETracked', 'ESetSlots'], timeout=900)
+    r = tlc.model_check(SPEC, 'MC_quick2.cfg', expect_actions=ALL_ACTIONS + ['TailEnd', 'ETracked', 'ESetSlots', 'PollStep'], timeout=900)
     chk.add_model('UploadSlots 2 users/2 uploads, limit changes, unbounded life cycles (exhaustive)', r)
     r = tlc.model_check(SPEC, 'MC_prio.cfg', expect_actions=['Cycle', 'TimerStep', 'FirstStep', 'ERequest', 'ETracked',
                                                              'ESetSlots'], timeout=900)
@@ -902,7 +928,7 @@ def _models(chk: Check, thorough: bool):
         teeth = [('MC_teeth_grantall.cfg', {'StartRespectsLimit'}), ('MC_teeth_offline.cfg', {'NeverOffline'}),
                  ('MC_teeth_users.cfg', {'OnePerUser'}), ('MC_teeth_countinit.cfg', {'OnePerUser', 'StartRespectsLimit'}),
                  ('MC_teeth_weights.cfg', {'PriorityHolds'}), ('MC_teeth_track.cfg', {'KnowledgeKept', 'NeverOffline'}),
-                 ('MC_live_lost.cfg', {'Temporal'}), ('MC_live_slots.cfg', {'Temporal'}),
+                 ('MC_live_lost.cfg', {'Temporal'}), ('MC_live_slots.cfg', {'Temporal'}), ('MC_live_managed.cfg', {'Temporal'}),
                  ('MC_live_requeuetail.cfg', {'Temporal'})]
     for cfg, want in teeth:
         rt = tlc.run_tlc(SPEC, cfg, timeout=300)
@@ -956,7 +982,7 @@ def _simulate(cfg, num, depth, seed, timeout=900):
         shutil.rmtree(d, ignore_errors=True)
 
 
-_DEEP = ('ENegotiated', 'EComplete', 'EFail', 'EBackToQueue', 'ERequeue', 'ESetSlots', 'EStatus', 'TailEnd', 'ETracked')
+_DEEP = ('PollStep', 'ENegotiated', 'EComplete', 'EFail', 'EBackToQueue', 'ERequeue', 'ESetSlots', 'EStatus', 'TailEnd', 'ETracked')
 
 
 def _score(labels):
